@@ -32,7 +32,8 @@ SPEC = {
                   "Connector driven against a scripted HTTP daemon at every run (result class, requests received, final daemon table) "
                   "and the implementation's own observation is checked against the boolean form of the property. Monitor theorems (Proofs/C16_Monitor.v): "
                   "every code 10..16 absent => its Prop-level clause (PinSpec/PinSpec2, UnpinSpec/UnpinSpec2, LsSpec); the model's own run, for every "
-                  "pin, table, script and admissible swarm-connect count, raises nothing but code 14 with the tag of the carried finding",
+                  "pin, table, script and admissible swarm-connect count, raises nothing but code 14 with the tag of the carried finding. "
+                  "Failure atomicity (pin_failure_atomic, unpin_failure_atomic): a call that does not report success left the daemon table unchanged unless a response was lost after the daemon acted",
     "level_note": "partial: the daemon contract is an assumption about go-ipfs (stated in Model/C16_Connector.v); the watchdog's "
                   "wall-clock behaviour is sampled (margins >= 4x, re-measured), the model abstracts time to 'stalls longer than the timeout'",
     "assumptions": ["go-ipfs contract of pin/ls, pin/add, pin/rm, pin/update as stated in Model/C16_Connector.v",
